@@ -471,3 +471,40 @@ def test_attribute_units_invalid():
     data.get_component('x').units = 'banana'
 
     ImageLayerState(layer=data, viewer_state=viewer_state)
+
+
+def test_reference_data_needs_two_dimensions():
+
+    # Regression test for a bug that caused a 1-d dataset (e.g. a table shown
+    # as a scatter overlay) to become the reference data once the image it
+    # was overlaid on was removed, which raised an IndexError.
+
+    from glue.viewers.scatter.state import ScatterLayerState
+
+    viewer_state = ImageViewerState()
+
+    image = Data(x=np.ones((3, 4)), label='image')
+    table = Data(a=np.arange(4.), label='table')
+
+    image_layer = ImageLayerState(layer=image, viewer_state=viewer_state)
+    viewer_state.layers.append(image_layer)
+    viewer_state.layers.append(ScatterLayerState(layer=table, viewer_state=viewer_state))
+
+    assert viewer_state.reference_data is image
+    assert viewer_state.ref_data_helper.choices == [image]
+
+    with pytest.raises(ValueError):
+        viewer_state.reference_data = table
+
+    viewer_state.layers.remove(image_layer)
+
+    assert viewer_state.reference_data is None
+    assert viewer_state.x_att is None
+    assert viewer_state.y_att is None
+    assert viewer_state.slices == ()
+
+    viewer_state.layers.append(image_layer)
+
+    assert viewer_state.reference_data is image
+    assert viewer_state.x_att is image.pixel_component_ids[1]
+    assert viewer_state.y_att is image.pixel_component_ids[0]
